@@ -43,6 +43,8 @@ def frame_times(frame):
 
 
 def resolve_end(e, ts):
+    if isinstance(e, str):          # already a literal (replay of a resolved program)
+        return float.fromhex(e)
     if 'v' in e:
         return float.fromhex(e['v'])
     lo, hi = (min(ts), max(ts)) if ts else (0.0, 0.1)
